@@ -3,6 +3,7 @@ from vlib.term import z, to_coq
 
 ID = 'C05'
 PROP_FILE = 'Props/C05.v'
+EXTRA_PROP_FILES = ['Props/C05Src.v']     # K1 source tie (tools/props/src_translate.py), see docs/reports/SRC.md
 EVAL_FILES = ['Oracle/C05Oracle.v']
 CRATES = ['c05']
 MODES = ['debug', 'release']
